@@ -19,11 +19,12 @@ PROPERTY = "C12"
 DRIVER = "TraitsVerif/Driver/Property.lean"
 PROPS_MODULES = ["TraitsVerif.Props.C12"]
 TRANSLATORS = ["propstate"]
-RULE = ("seeded random histories of 1-15 steps over a pool of 3-6 HasTraits objects (value/aux Int, inst Instance, "
+RULE = ("seeded random histories of 1-15 steps over a pool of 3-6 HasTraits objects (value/aux Int, xn/xi/xe Any with comparison_mode "
+        "none/identity/equality assigned equal-but-distinct objects 1/1.0/True, (1,2)/(1.0,2.0), 2/2.0, inst Instance, "
         "kids List(Instance), byname Dict(Str, Instance), tags Set(Int)); a class per shape: Property(observe=E) or "
         "legacy depends_on, declared in one class or through a hierarchy (base plain getter / subclass "
         "@cached_property over one or two levels, base cached / subclass plain, redeclared in the subclass with "
-        "another expression), cached or not, 20 expressions (scalar, inst.value, kids.items.value, byname.items, "
+        "another expression), cached or not, 28 expressions (scalar, inst.value, kids.items.value, byname.items, "
         "inst.kids.items.value, tags.items, two-link paths, lists of paths), full-view or lossy-sum getter, getter "
         "returning None / 0 / '' / [] (kind F), getter returning Undefined, getter raising on its k-th call, class-level _p_changed listener, static readers on "
         "aux / value, dynamically attached on_trait_change + observe listeners and a late reader; steps: scalar set, "
@@ -61,20 +62,60 @@ EXHAUSTIVE = {"quick": False, "thorough": False}
 DISTINCT_BY_OUTPUT = False
 
 EXPRS = ["v", "i.v", "k.v", "B", "i.k.v", "T", "b.v", "K", "I", "i.i.v", "k.k.v", "k.i.v", "i.b.v",
-         "v+i.v", "k.v+B", "i.v+i.k.v", "T+k.v+I", "i.i.i.v", "b.b.v", "i.k.i.v"]
+         "v+i.v", "k.v+B", "i.v+i.k.v", "T+k.v+I", "i.i.i.v", "b.b.v", "i.k.i.v",
+         "Xi", "Xn", "Xe", "i.Xi", "k.Xi", "Xi+Xe", "b.Xn", "i.Xe"]
 # expressions in which a link can be reachable through itself (the F10 input class)
 SELF_EXPRS = ["i.i.v", "k.k.v", "i.i.i.v", "b.b.v", "i.k.i.v", "i.i.v", "k.k.v"]
 LINK_SLOT = {"i": "i", "k": "k", "b": "b"}
-LEAF_SLOT = {"v": "v", "a": "a", "I": "i", "K": "k", "B": "b", "T": "t"}
+LEAF_SLOT = {"v": "v", "a": "a", "I": "i", "K": "k", "B": "b", "T": "t", "Xn": "xn", "Xi": "xi", "Xe": "xe"}
 OBS_LINK = {"i": "inst", "k": "kids.items", "b": "byname.items"}
-OBS_LEAF = {"v": "value", "a": "aux", "I": "inst", "K": "kids.items", "B": "byname.items", "T": "tags.items"}
+OBS_LEAF = {"Xn": "xn", "Xi": "xi", "Xe": "xe", "v": "value", "a": "aux", "I": "inst", "K": "kids.items", "B": "byname.items", "T": "tags.items"}
 LEG_LINK = {"i": "inst", "k": "kids", "b": "byname"}
-LEG_LEAF = {"v": "value", "a": "aux", "I": "inst", "K": "kids", "B": "byname", "T": "tags"}
+LEG_LEAF = {"Xn": "xn", "Xi": "xi", "Xe": "xe", "v": "value", "a": "aux", "I": "inst", "K": "kids", "B": "byname", "T": "tags"}
 # how the class hierarchy declares the property (the shape's expr / cached are the EFFECTIVE ones):
 #   -   one class            bu  base: Property + plain getter, subclass overrides _get_p with @cached_property
 #   b2  as bu, with an empty class in between      bc  base cached, subclass overrides with a plain getter
 #   rd  base declares the property over another expression, the subclass redeclares it
 INHERIT = ("-", "bu", "b2", "bc", "rd")
+# Dependencies with a comparison mode: xn / xi / xe = Any(comparison_mode=none / identity / equality).
+# The heap key of xn / xi is a code of the OBJECT held (index in LITS: equal-but-distinct objects differ), that of xe
+# the ==-class of the value (index in EQ_REPS); a step token `c~r` assigns representative r of class c.
+SCALARS = ("v", "a", "xn", "xi", "xe")
+SCALAR_NAME = {"v": "value", "a": "aux", "xn": "xn", "xi": "xi", "xe": "xe"}
+LITS = [None, 1, 1.0, True, (1, 2), (1.0, 2.0), 2, 2.0, "a"]
+EQ_REPS = [[None], [1, 1.0, True], [(1, 2), (1.0, 2.0)], [2, 2.0], ["a"]]
+
+
+def lit_code(x):
+    """which literal: by type and repr (what a repr / type based getter distinguishes)"""
+    for i, l in enumerate(LITS):
+        if type(l) is type(x) and repr(l) == repr(x):
+            return i
+    raise AssertionError("unknown literal %r" % (x,))
+
+
+def eq_class(x):
+    for i, reps in enumerate(EQ_REPS):
+        if type(x) is type(None) or type(reps[0]) is type(None):
+            if x is None and reps[0] is None:
+                return i
+            continue
+        if isinstance(x, str) != isinstance(reps[0], str) or isinstance(x, tuple) != isinstance(reps[0], tuple):
+            continue
+        if x == reps[0]:
+            return i
+    raise AssertionError("unknown value %r" % (x,))
+
+
+def tok_key(tok):
+    return int(str(tok).split("~")[0])
+
+
+def tok_rep(tok):
+    t = str(tok).split("~")
+    return int(t[1]) if len(t) > 1 else 0
+
+
 FAIL_EXCS = ["ValueError", "TraitError", "RuntimeError", "KeyError", "AttributeError"]
 CACHE = "_traits_cache_p"
 
@@ -113,7 +154,7 @@ class Shape:
 # ---------------------------------------------------------------------------
 
 def blank_obj():
-    return {"v": 0, "a": 0, "i": None, "k": [], "b": {}, "t": set()}
+    return {"v": 0, "a": 0, "xn": 0, "xi": 0, "xe": 0, "i": None, "k": [], "b": {}, "t": set()}
 
 
 def h_targets(h, o, l):
@@ -127,7 +168,7 @@ def h_targets(h, o, l):
 
 def h_content_str(h, o, slot):
     ob = h[o]
-    if slot in ("v", "a"):
+    if slot in SCALARS:
         return str(ob[slot])
     if slot == "i":
         return "N" if ob["i"] is None else "#%d" % ob["i"]
@@ -140,7 +181,7 @@ def h_content_str(h, o, slot):
 
 def h_content_sum(h, o, slot):
     ob = h[o]
-    if slot in ("v", "a"):
+    if slot in SCALARS:
         return ob[slot]
     if slot == "i":
         return 0 if ob["i"] is None else ob["i"] + 1
@@ -238,7 +279,7 @@ def h_root_reentrant(h, paths, root=0):
 
 
 def h_copy(h):
-    return {o: {"v": ob["v"], "a": ob["a"], "i": ob["i"], "k": list(ob["k"]), "b": dict(ob["b"]), "t": set(ob["t"])}
+    return {o: {"v": ob["v"], "a": ob["a"], "xn": ob["xn"], "xi": ob["xi"], "xe": ob["xe"], "i": ob["i"], "k": list(ob["k"]), "b": dict(ob["b"]), "t": set(ob["t"])}
             for o, ob in h.items()}
 
 
@@ -386,6 +427,8 @@ def parse_write(w):
     k, _, v = w.partition("=")
     if k in ("v", "a"):
         return (k, int(v))
+    if k in ("xn", "xi", "xe"):
+        return (k, v)
     if k == "i":
         return (k, None if v == "N" else int(v))
     if k == "k":
@@ -401,6 +444,8 @@ def show_write(w):
     k, v = w
     if k in ("v", "a"):
         return "%s=%d" % (k, v)
+    if k in ("xn", "xi", "xe"):
+        return "%s=%s" % (k, v)
     if k == "i":
         return "i=%s" % ("N" if v is None else v)
     if k == "k":
@@ -415,7 +460,7 @@ def parse_step(s):
     w = s.split()
     k = w[0]
     if k == "sv":
-        return ("sv", int(w[1]), w[2], int(w[3]))
+        return ("sv", int(w[1]), w[2], int(w[3]) if w[2] in ("v", "a") else w[3])
     if k == "si":
         return ("si", int(w[1]), None if w[2] == "N" else int(w[2]))
     if k == "sk":
@@ -449,6 +494,8 @@ def sh_write(ob, w):
         ob["b"] = dict(v)
     elif k == "t":
         ob["t"] = set(v)
+    elif k in ("xn", "xi", "xe"):
+        ob[k] = tok_key(v)
     else:
         ob[k] = v
 
@@ -469,8 +516,8 @@ def rebuild(shape_text, n, steps):
         if k in ("sv", "si", "sk", "sb", "st", "mk", "mb", "mt"):
             pre = h_copy(h)
         if k == "sv":
-            h[st[1]][st[2]] = st[3]
-            out.append("sv %d %s %d" % (st[1], st[2], st[3]))
+            h[st[1]][st[2]] = tok_key(st[3])
+            out.append("sv %d %s %s" % (st[1], st[2], st[3]))
         elif k == "si":
             h[st[1]]["i"] = st[2]
             tgt = (st[1], "i")
@@ -577,7 +624,7 @@ def shrink(case, fails):
 # ---------------------------------------------------------------------------
 
 _CLASSES = {}
-NODE_FIELDS = ["uid", "value", "aux", "inst", "kids", "byname", "tags"]
+NODE_FIELDS = ["uid", "value", "aux", "xn", "xi", "xe", "inst", "kids", "byname", "tags"]
 
 
 def _register(cls, name):
@@ -591,12 +638,15 @@ def _register(cls, name):
 def node_class():
     if "node" in _CLASSES:
         return _CLASSES["node"]
-    from traits.api import Dict, HasTraits, Instance, Int, List, Set, Str
+    from traits.api import Any, ComparisonMode, Dict, HasTraits, Instance, Int, List, Set, Str
 
     class C12Node(HasTraits):
         uid = Int()
         value = Int()
         aux = Int()
+        xn = Any(comparison_mode=ComparisonMode.none)
+        xi = Any(comparison_mode=ComparisonMode.identity)
+        xe = Any(comparison_mode=ComparisonMode.equality)
         inst = Instance(HasTraits)
         kids = List(Instance(HasTraits))
         byname = Dict(Str, Instance(HasTraits), copy="deep")
@@ -655,6 +705,10 @@ def r_content_str(o, slot):
         return str(o.value)
     if slot == "a":
         return str(o.aux)
+    if slot in ("xn", "xi"):
+        return str(lit_code(getattr(o, slot)))     # distinguishes 1 / 1.0 / True, (1, 2) / (1.0, 2.0) ...
+    if slot == "xe":
+        return str(eq_class(o.xe))                 # ... an equality-compared dependency must not be told apart
     if slot == "i":
         return "N" if o.inst is None else "#%s" % _uid(o.inst)
     if slot == "k":
@@ -677,6 +731,10 @@ def r_content_sum(o, slot):
         return o.value
     if slot == "a":
         return o.aux
+    if slot in ("xn", "xi"):
+        return lit_code(getattr(o, slot))
+    if slot == "xe":
+        return eq_class(o.xe)
     if slot == "i":
         return 0 if o.inst is None else _unum(o.inst)
     if slot == "k":
@@ -837,7 +895,7 @@ def snapshot(pool):
     uid = {id(o): i for i, o in enumerate(pool)}
     h = {}
     for i, o in enumerate(pool):
-        h[i] = {"v": o.value, "a": o.aux, "i": None if o.inst is None else uid.get(id(o.inst), -1),
+        h[i] = {"v": o.value, "a": o.aux, "xn": lit_code(o.xn), "xi": lit_code(o.xi), "xe": eq_class(o.xe), "i": None if o.inst is None else uid.get(id(o.inst), -1),
                 "k": [uid.get(id(x), -1) for x in o.kids],
                 "b": dict((int(k[1:]), uid.get(id(v), -1)) for k, v in o.byname.items()),
                 "t": set(o.tags)}
@@ -857,6 +915,8 @@ class Run:
         self.cls = root_class(shape)
         self.pool = [self.cls(uid=0)] + [Node(uid=i) for i in range(1, n)]
         self.attached = False
+        # the objects assigned for the codes (equal-but-distinct: their identity matters for xi)
+        self.lits = list(LITS)
         self.otc = []
         self.obs = []
         self._h_otc = lambda obj, name, old, new: self.otc.append((old, new))
@@ -900,11 +960,18 @@ class Run:
                 new.append(_copy.deepcopy(o, memo))
         self.pool = new
         self.attached = False
+        # the copies hold copies of the literals (pickle: new floats / tuples): a code now stands for the object
+        # that is held, so that assigning the same code again is again `the identical object`
+        for o in new:
+            for f in ("xn", "xi"):
+                v = getattr(o, f)
+                self.lits[lit_code(v)] = v
 
     def construct(self, writes):
         kw = {}
         for k, v in writes:
-            kw[{"v": "value", "a": "aux", "i": "inst", "k": "kids", "b": "byname", "t": "tags"}[k]] = self.conv(k, v)
+            kw[{"v": "value", "a": "aux", "xn": "xn", "xi": "xi", "xe": "xe", "i": "inst", "k": "kids", "b": "byname",
+                "t": "tags"}[k]] = self.conv(k, v)
         self.pool[0] = self.cls(uid=0, **kw)
         self.attached = False
 
@@ -918,6 +985,10 @@ class Run:
             return dict(("k%d" % a, pool[b]) for a, b in v.items())
         if k == "t":
             return set(v)
+        if k in ("xn", "xi"):
+            return self.lits[tok_key(v)]
+        if k == "xe":
+            return EQ_REPS[tok_key(v)][tok_rep(v) % len(EQ_REPS[tok_key(v)])]
         return v
 
 
@@ -1018,7 +1089,7 @@ def run_impl(case):
                     else:
                         o.byname.update(dict(("k%d" % i, x) for i, x in enumerate(items)))
                 elif k == "sv":
-                    setattr(R.pool[st[1]], "value" if st[2] == "v" else "aux", st[3])
+                    setattr(R.pool[st[1]], SCALAR_NAME[st[2]], R.conv(st[2], st[3]))
                 elif k == "rd":
                     try:
                         read = show_val(root.p)
@@ -1091,7 +1162,7 @@ def run_impl(case):
             tgt = (st[1], k[1])
         try:
             if k == "sv":
-                setattr(R.pool[st[1]], "value" if st[2] == "v" else "aux", st[3])
+                setattr(R.pool[st[1]], SCALAR_NAME[st[2]], R.conv(st[2], st[3]))
             elif k == "si":
                 R.pool[st[1]].inst = R.conv("i", st[2])
             elif k == "sk":
@@ -1192,8 +1263,10 @@ def run_impl(case):
             continue
         ran = calls - pre_calls
         if tgt is not None:
+            # comparison_mode none: every assignment is a change; otherwise the heap key (object code for
+            # identity, ==-class for equality) differs
             notifying = emitted if emitted is not None else (
-                h_content_str(pre, tgt[0], tgt[1]) != h_content_str(post, tgt[0], tgt[1]))
+                tgt[1] == "xn" or h_content_str(pre, tgt[0], tgt[1]) != h_content_str(post, tgt[0], tgt[1]))
             if emitted is False and h_content_str(pre, tgt[0], tgt[1]) != h_content_str(post, tgt[0], tgt[1]):
                 return "shadow-mismatch silent change %s" % stext, [], ["shadow-mismatch"]
             relevant = notifying and h_matched(pre, shape.paths, tgt)
@@ -1279,6 +1352,9 @@ def random_shape(rng, legacy=None, exprs=None):
     return "%s %d %s %d %d %d %d %s %d %s %s" % (
         expr, cached, "l" if legacy else "o", rng.random() < 0.3, rng.random() < 0.2, rng.random() < 0.2,
         rng.random() < 0.2, getter, undef, fail, inherit)
+
+
+ALL_SLOTS = ["v", "a", "i", "k", "b", "t", "xn", "xi", "xe"]
 
 
 def slots_of(paths):
@@ -1398,8 +1474,24 @@ def random_history(rng, legacy=None, maxsteps=15, allow_self=0.06, tree=None, ex
     def mutation():
         reach = reachable(h, shape.paths)
         o = rng.choice(reach) if rng.random() < 0.75 else rng.randrange(n)
-        slot = rng.choice(rel_slots) if rng.random() < 0.75 else rng.choice("vaikbt")
+        slot = rng.choice(rel_slots) if rng.random() < 0.75 else rng.choice(ALL_SLOTS)
         ob = h[o]
+        if slot in ("xn", "xi"):
+            # equal-but-distinct objects (1 / 1.0 / True, (1, 2) / (1.0, 2.0), 2 / 2.0), the same object again
+            cur = ob[slot]
+            r = rng.random()
+            if r < 0.15:
+                return ("sv", o, slot, str(cur))
+            if r < 0.65:
+                same = [i for i, l in enumerate(LITS) if l is not None and LITS[cur] is not None
+                        and not isinstance(l, str) and not isinstance(LITS[cur], str) and l == LITS[cur] and i != cur]
+                if same:
+                    return ("sv", o, slot, str(rng.choice(same)))
+            return ("sv", o, slot, str(rng.randrange(len(LITS))))
+        if slot == "xe":
+            cur = ob[slot]
+            c = cur if rng.random() < 0.5 else rng.randrange(len(EQ_REPS))
+            return ("sv", o, slot, "%d~%d" % (c, rng.randrange(len(EQ_REPS[c]))))
         if slot in ("v", "a"):
             v = ob[slot] if rng.random() < 0.12 else rng.randint(0, 9)
             return ("sv", o, slot, v)
@@ -1469,7 +1561,7 @@ def random_history(rng, legacy=None, maxsteps=15, allow_self=0.06, tree=None, ex
         k = st[0]
         try:
             if k == "sv":
-                h[st[1]][st[2]] = st[3]
+                h[st[1]][st[2]] = tok_key(st[3])
             elif k == "si":
                 h[st[1]]["i"] = st[2]
             elif k == "sk":
@@ -1495,9 +1587,14 @@ def random_history(rng, legacy=None, maxsteps=15, allow_self=0.06, tree=None, ex
     if rng.random() < 0.2:
         # construct the root with keyword arguments (observers are installed before they are assigned)
         ws = []
-        for slot in rng.sample("vaikbt", rng.randint(0, 5)):
+        for slot in rng.sample(ALL_SLOTS, rng.randint(0, 6)):
             if slot in ("v", "a"):
                 ws.append((slot, rng.randint(0, 9)))
+            elif slot in ("xn", "xi"):
+                ws.append((slot, str(rng.randrange(len(LITS)))))
+            elif slot == "xe":
+                c = rng.randrange(len(EQ_REPS))
+                ws.append((slot, "%d~%d" % (c, rng.randrange(len(EQ_REPS[c])))))
             elif slot == "i":
                 ws.append(("i", rng.choice([None] + list(range(1, n)))))
             elif slot == "k":
@@ -1606,6 +1703,23 @@ def motif_history(rng):
         steps += [("mk", owner, "append:%d" % a), ("mk", owner, "append:%d" % a)] + rd + touch(a) + rd
         steps += [("mk", owner, rng.choice(["del:0", "remove:%d" % a, "pop:-1", "pop:0", "dslice:0:1"]))] + rd
         steps += touch(a) + rd + [("mk", owner, rng.choice(["del:0", "clear", "remove:%d" % a]))] + touch(a) + rd
+    elif kind in ("multiplicity", "two-keys", "replace") and l == "b" and rng.random() < 0.6:
+        # a key set again to the identical object it holds / update(dict(d)), the value under one or two keys,
+        # as often as it has keys (and once more); then every value still present changes
+        keys = [0, 1] if rng.random() < 0.5 else [0]
+        cur = dict((kk, a) for kk in keys)
+        if rng.random() < 0.5:
+            cur[2] = b
+        steps += [("sb", owner, dict(cur))] if rng.random() < 0.5 else \
+            [("mb", owner, "set:%d:%d" % (kk, v)) for kk, v in sorted(cur.items())]
+        steps += rd
+        for _ in range(len(keys) + rng.randint(0, 1)):
+            steps += [rng.choice([("mb", owner, "set:%d:%d" % (rng.choice(keys), a)),
+                                  ("mb", owner, "update:%s" % show_dict(cur)),
+                                  ("mb", owner, "update:%s" % show_dict(dict((kk, a) for kk in keys)))])]
+            steps += rd if rng.random() < 0.5 else []
+        steps += rd + touch(a) + rd + (touch(b) + rd if 2 in cur else [])
+        steps += [("mb", owner, "del:%d" % keys[0])] + touch(a) + rd
     elif kind in ("dup-remove", "two-keys") and l == "b":
         steps += [("mb", owner, "set:0:%d" % a), ("mb", owner, "set:1:%d" % a)] + rd + touch(a) + rd
         steps += [("mb", owner, rng.choice(["del:0", "pop:1", "set:0:%d" % b, "update:{1:%d}" % b]))] + rd
@@ -1656,6 +1770,11 @@ SMALL_ALPHABETS = {
             ("rd",), ("at",)],
     "v+i.v": [("sv", 0, "v", 1), ("sv", 0, "v", 0), ("sv", 0, "a", 1), ("si", 0, 1), ("si", 0, None), ("si", 0, 0),
               ("sv", 1, "v", 1), ("rd",), ("at",), ("dt",), ("cp", "p")],
+    "Xi": [("sv", 0, "xi", "1"), ("sv", 0, "xi", "2"), ("sv", 0, "xi", "3"), ("sv", 0, "xi", "4"), ("sv", 0, "xi", "5"),
+           ("sv", 0, "xn", "1"), ("sv", 0, "xe", "1~1"), ("rd",), ("at",), ("cp", "p"), ("cp", "c")],
+    "Xn+Xe": [("sv", 0, "xn", "1"), ("sv", 0, "xn", "2"), ("sv", 0, "xn", "0"), ("sv", 0, "xe", "1~0"),
+              ("sv", 0, "xe", "1~1"), ("sv", 0, "xe", "1~2"), ("sv", 0, "xe", "2~1"), ("sv", 0, "xi", "1"), ("rd",),
+              ("at",), ("cp", "d")],
     "T": [("st", 0, [1]), ("st", 0, [1, 2]), ("st", 0, []), ("mt", 0, "add:1"), ("mt", 0, "add:2"),
           ("mt", 0, "discard:1"), ("mt", 0, "ixor:[1,2]"), ("mt", 0, "clear"), ("mt", 1, "add:1"), ("rd",), ("at",)],
 }
@@ -1717,6 +1836,18 @@ def corpus():
         "rd;sv 1 v 6;rd",
         "k.i.v 1 o 1 0 0 0 V 0 - -|5|si 1 3;si 2 4;sk 0 [1,1,2];rd;mk 0 slice:0:3:[1,2,2] [1,2,2] 1;mk 0 pop:-1 [1,2] 1;"
         "sv 4 v 5;rd;si 2 3;rd",
+        # dependencies with a comparison mode, assigned equal-but-distinct objects (1 / 1.0 / True, equal tuples)
+        "Xi 1 o 0 0 0 0 V 0 - -|2|sv 0 xi 1;at;rd;sv 0 xi 2;rd;sv 0 xi 3;rd;sv 0 xi 3;rd;sv 0 xi 4;rd;sv 0 xi 5;rd;cp p;rd;"
+        "sv 0 xi 4;rd;cp c;sv 0 xi 5;rd",
+        "Xn+Xe 1 o 1 0 0 0 V 0 - -|2|sv 0 xn 1;rd;sv 0 xn 1;rd;sv 0 xn 2;rd;sv 0 xe 1~0;rd;sv 0 xe 1~1;rd;sv 0 xe 1~2;rd;"
+        "sv 0 xe 3~1;rd",
+        "i.Xi 1 o 0 0 0 0 V 0 - bu|3|si 0 1;sv 1 xi 6;rd;sv 1 xi 7;rd;sv 1 xi 7;rd",
+        "Xi 1 l 1 0 0 0 V 0 - -|2|sv 0 xi 1;rd;sv 0 xi 2;rd;sv 0 xi 3;rd",
+        # a dict key set again to the identical object, update(dict(d)), a value under two keys; then it changes
+        "b.v 1 o 0 0 0 0 V 0 - -|3|mb 0 set:0:1 {0:1} 1;rd;mb 0 set:0:1 {0:1} 1;rd;sv 1 v 5;rd;mb 0 update:{0:1} {0:1} 1;"
+        "rd;sv 1 v 6;rd",
+        "b.v 1 o 0 0 0 0 V 0 - -|3|sb 0 {0:1,1:1};rd;mb 0 set:0:1 {0:1,1:1} 1;mb 0 set:1:1 {0:1,1:1} 1;rd;sv 1 v 5;rd;"
+        "mb 0 update:{0:1,1:1} {0:1,1:1} 1;mb 0 update:{0:1,1:1} {0:1,1:1} 1;sv 1 v 6;rd",
         # Undefined-returning getter
         "v 1 o 0 0 0 0 S 1 -|2|sv 0 v 3;rd;rd;sv 0 v 4;rd;rd",
     ]
